@@ -248,7 +248,7 @@ func runC14(t *testing.T, sc *world.Scenario) *check.Result {
 	n := int(sc.Params["ops"])
 	ops := genOps(sc.Seed, n, false)
 	res.Sample = fmt.Sprintf("c14 seed=%d ops=%d first=%s", sc.Seed, n, opsSummary(ops, 8))
-	dir, err := os.MkdirTemp(shmBase2(), "verif-c14-")
+	dir, err := os.MkdirTemp(shmBase2(), fmt.Sprintf("verif-c14-%d-", os.Getpid()))
 	if err != nil {
 		res.Harness = err.Error()
 		return res
@@ -392,7 +392,7 @@ func runC14Crash(t *testing.T, sc *world.Scenario) *check.Result {
 		res.Harness = "strace not available"
 		return res
 	}
-	dir, err := os.MkdirTemp(shmBase2(), "verif-c14c-")
+	dir, err := os.MkdirTemp(shmBase2(), fmt.Sprintf("verif-c14c-%d-", os.Getpid()))
 	if err != nil {
 		res.Harness = err.Error()
 		return res
